@@ -580,3 +580,21 @@ Proof.
     replace (Z.of_nat (length outs0) - 1)%Z with (Z.of_nat (length outs0) + -1)%Z by lia.
     rewrite inject_Z_plus. simpl (inject_Z (-1)). ring.
 Qed.
+
+(* "No cell has a negative used size, never smaller than the content's minimum":
+   a cell laid on columns whose widths (plus the spacing between them) cover its
+   outer min-content width -- min-content width mc of its content plus its own
+   paddings and borders, what the width algorithm has to guarantee for every
+   cell -- gets a used content width of at least mc, in particular a non
+   negative one; and conversely a cell narrower than mc betrays columns that
+   under-count its outer width (the predicate of Check/C13.v codes 20 / 21). *)
+Theorem cell_content_fits x0 bsx widths c cs x w bw mc :
+  (0 <= hc_gridx c)%Z -> (1 <= hc_colspan c)%Z ->
+  cell_horizontal exactQ widths (column_positions exactQ x0 bsx widths) bsx c = Ok (Some (cs, x, w, bw)) ->
+  let cols := sumQ (firstn (Z.to_nat cs) (skipn (Z.to_nat (hc_gridx c)) widths)) + inject_Z (cs - 1) * bsx in
+  (mc + (hc_pl c + hc_pr c + hc_bl c + hc_br c) <= cols <-> mc <= w).
+Proof.
+  intros Hg Hc H cols.
+  destruct (cell_horizontal_spec x0 bsx widths c cs x w bw Hg Hc H) as (_ & _ & _ & _ & Ebw & Ew).
+  unfold cols. split; intro Hle; lra.
+Qed.
